@@ -616,6 +616,34 @@ func (w *World) ledgerKind(v ssa.Value) (kind string, desc string) {
 		if i, ok := paramIndex(y); ok && i < 0 {
 			return "self", desc
 		}
+		// a ledger handed to a package-private helper: what its call sites agree on
+		if fn := y.Parent(); fn != nil && w.ledgerKindDepth < 3 && (fn.Object() == nil || !fn.Object().Exported()) {
+			idx := -1
+			for i, p := range fn.Params {
+				if p == y {
+					idx = i
+				}
+			}
+			cs := w.nodeCallers(fn)
+			kind := ""
+			for _, c := range cs {
+				if idx < 0 || c.Site == nil || c.Site.Common().StaticCallee() == nil || idx >= len(c.Site.Common().Args) {
+					kind = "unknown"
+					break
+				}
+				w.ledgerKindDepth++
+				k, _ := w.ledgerKind(c.Site.Common().Args[idx])
+				w.ledgerKindDepth--
+				if kind == "" {
+					kind = k
+				} else if kind != k {
+					kind = "unknown"
+				}
+			}
+			if kind != "" && kind != "unknown" {
+				return kind, desc
+			}
+		}
 	}
 	// a ledger handed out by a module helper: what every feasible return of the helper is
 	var call *ssa.Call
